@@ -203,6 +203,45 @@ def gen_main(tier):
     return g
 
 
+def compositions(n):
+    """every tuple of positive integers summing to n (2**(n-1) of them), shortest first"""
+    out = []
+
+    def rec(rest, acc):
+        if rest == 0:
+            out.append(tuple(acc))
+            return
+        for k in range(1, rest + 1):
+            rec(rest - k, acc + [k])
+
+    rec(n, [])
+    return sorted(out, key=lambda c: (len(c), c))
+
+
+def gen_irregular(tier):
+    """Irregular SOURCE chunkings: every composition of the 8 rows with the columns chunked (4,4) / (3,5), and every
+    composition of the 8 columns with the rows chunked (4,4) / (5,3) - size relations between neighbouring chunks
+    (equal prefix averages, first == last, ...) all occur; destination chunks of one pixel make every dependency window
+    as small as it can be."""
+    comps = compositions(8)
+    dests = ("identical", "scale2", "mirror-x") + (("subpixel-shift", "rot-coarse", "scale-half", "mirror-xy-overhang", "bigger") if tier == "thorough" else ())
+    combos = ((((1, 1), "int16", "both"), ((3, 4), "float32", "none")) if tier == "quick" else
+              tuple((dc, dt, nd) for dc in ((1, 1), (3, 4)) for dt, nd in (("int16", "both"), ("float32", "none"))))
+
+    def g():
+        for axis in (0, 1):
+            for comp in comps:
+                if len(comp) in (1, 8):
+                    continue  # regular chunkings are in slice same-crs
+                for other in (((4, 4), (3, 5)) if axis == 0 else ((4, 4), (5, 3))):
+                    sc = (comp, other) if axis == 0 else (other, comp)
+                    for dest in dests:
+                        for dc, dtype, nds in combos:
+                            yield ((8, 8), dtype, nds, sc, dc, dest, 0)
+
+    return g
+
+
 def run_main(case):
     shape, dtype, nds, schunk, dchunk, dest, ntime = case
     xx, xd, dg, P, dshape, src_nd, dst_nd = build(case)
@@ -667,6 +706,8 @@ def slices(tier):
                  "sources holding nodata pixels (isolated / a whole chunk / half / all / one plane) x nodata settings x chunkings x destinations"),
         e1.Slice("joint", gen_joint(tier), run_joint, "pairs of reprojections differing in one parameter, computed in one graph"),
         e1.Slice("same-crs", gen_main(tier), run_main, "chunkings x destinations x dtypes x nodata x time"),
+        e1.Slice("irregular-chunks", gen_irregular(tier), run_main,
+                 "every composition of 8 rows / 8 columns as the source chunking x destinations x one-pixel and 3x4 destination chunks"),
         e1.Slice("cross-crs", gen_cross(tier), run_cross, "3857<->4326 coverage/fill classes"),
         e1.Slice("task-orders", gen_orders(tier), run_orders, "E3b: every task order within the deviation bound", shards=3),
     ]
